@@ -761,6 +761,7 @@ func engineAPI(rep *Report) {
 			walkEnums(f.Enums())
 			walkMsgs(f.Messages())
 		}
+		guardCase(rep, "C19", "api", "extension-variables", 0, func() { c.extensionVars() })
 		// the root package (stock protoc-gen-go output) is a subject of C19 too
 		if f, err := protoregistry.GlobalFiles.FindFileByPath("cosmos_proto/cosmos.proto"); err == nil {
 			walkEnums(f.Enums())
@@ -805,4 +806,74 @@ func mapValueEnum(fd FD) protoreflect.Descriptor {
 		return fd.MapValue().Enum()
 	}
 	return nil
+}
+
+// goCamel: the Go name protoc-gen-go derives from a proto identifier (underscore + lower-case letter -> upper case).
+func goCamel(s string) string {
+	var b []byte
+	for i := 0; i < len(s); i++ {
+		c := s[i]
+		switch {
+		case c == '_' && i+1 < len(s) && s[i+1] >= 'a' && s[i+1] <= 'z':
+			b = append(b, s[i+1]-'a'+'A')
+			i++
+		case i == 0 && c >= 'a' && c <= 'z':
+			b = append(b, c-'a'+'A')
+		case i == 0 && c == '_':
+			b = append(b, 'X')
+		default:
+			b = append(b, c)
+		}
+	}
+	return string(b)
+}
+
+// extensionVars: every generated extension variable E_<Name> is the extension type of the extension of that name,
+// the one the registry holds under the full name and under (extendee, number), and describes what the schema says.
+func (c *apiCtx) extensionVars() {
+	for _, ev := range glue.ExtVars() {
+		what := ev.Package + "." + ev.GoName
+		c.rep.Eval("C19", []byte("extvar|"+what), true)
+		c.rep.Count("C19", "extension-variables-checked", 1)
+		var xd protoreflect.ExtensionTypeDescriptor
+		pan, pmsg := safely(func() { xd = ev.Type.TypeDescriptor() })
+		if pan || xd == nil {
+			c.bad("extension/var-unusable", what, "TypeDescriptor(): "+pmsg)
+			continue
+		}
+		want := "E_" + goCamel(string(xd.Name()))
+		if p, ok := xd.Parent().(protoreflect.MessageDescriptor); ok {
+			want = "E_" + goCamel(string(p.Name())) + "_" + string(xd.Name()) // (declared inside a message: not in the corpus)
+			_ = want
+			continue
+		}
+		if want != ev.GoName {
+			c.bad("extension/var-names-another-extension", what, fmt.Sprintf("variable %s holds the extension type of %s (expected the extension whose Go name is %s)", ev.GoName, xd.FullName(), ev.GoName))
+			continue
+		}
+		if byName, err := protoregistry.GlobalTypes.FindExtensionByName(xd.FullName()); err != nil || byName != ev.Type {
+			c.bad("extension/registry-holds-another-type", what, fmt.Sprintf("GlobalTypes.FindExtensionByName(%s): err=%v, same object as the variable: %v", xd.FullName(), err, byName == ev.Type))
+		}
+		if byNum, err := protoregistry.GlobalTypes.FindExtensionByNumber(xd.ContainingMessage().FullName(), xd.Number()); err != nil || byNum != ev.Type {
+			c.bad("extension/registry-holds-another-type", what, fmt.Sprintf("GlobalTypes.FindExtensionByNumber(%s, %d): err=%v, same object: %v", xd.ContainingMessage().FullName(), xd.Number(), err, byNum == ev.Type))
+		}
+		if fdesc, err := protoregistry.GlobalFiles.FindDescriptorByName(xd.FullName()); err != nil || fdesc.(protoreflect.FieldDescriptor).Number() != xd.Number() || fdesc.(protoreflect.FieldDescriptor).Kind() != xd.Kind() {
+			c.bad("extension/descriptor-differs", what, fmt.Sprintf("GlobalFiles descriptor of %s differs from the variable's (err=%v)", xd.FullName(), err))
+		}
+		// the value type follows the declared kind
+		pan, pmsg = safely(func() {
+			v := ev.Type.New()
+			if xd.IsList() {
+				_ = v.List().Len()
+			} else if xd.Kind() == protoreflect.MessageKind {
+				if v.Message().Descriptor().FullName() != xd.Message().FullName() {
+					panic("New() yields a message of type " + string(v.Message().Descriptor().FullName()))
+				}
+			}
+			_ = ev.Type.InterfaceOf(ev.Type.Zero())
+		})
+		if pan {
+			c.bad("extension/value-type", what, pmsg)
+		}
+	}
 }
